@@ -172,31 +172,49 @@ impl<'b, 'tx> Iterator for Cursor<'b, 'tx> {
     fn next(&mut self) -> Option<Self::Item> {
         if self.stack.is_empty() {
             self.seek_first();
-        } else if self.next_called {
-            loop {
-                {
-                    let b = self.bucket.borrow();
-                    if b.deleted {
-                        panic!("Cannot get data from a deleted bucket.");
-                    }
-                    let elem = self.stack.last_mut().unwrap();
-                    let page_node = b.page_node(elem.id);
-                    if elem.index >= (page_node.len() - 1) {
-                        if self.stack.len() == 1 {
-                            return None;
-                        }
-                        self.stack.pop();
-                        continue;
-                    } else {
-                        elem.index += 1;
-                    }
-                }
-                self.seek_first();
-                break;
-            }
+        } else if self.next_called && !self.advance() {
+            return None;
         }
         self.next_called = true;
-        self.current()
+        // A leaf can be empty inside a write transaction (every entry deleted,
+        // not rebalanced yet), so keep moving until we find an entry.
+        loop {
+            match self.current() {
+                Some(data) => return Some(data),
+                None => {
+                    if !self.advance() {
+                        return None;
+                    }
+                }
+            }
+        }
+    }
+}
+
+impl<'b, 'tx> Cursor<'b, 'tx> {
+    // Moves the cursor to the next position in key order.
+    // Returns false (and leaves the cursor where it is) if there is none.
+    fn advance(&mut self) -> bool {
+        loop {
+            {
+                let b = self.bucket.borrow();
+                if b.deleted {
+                    panic!("Cannot get data from a deleted bucket.");
+                }
+                let elem = self.stack.last_mut().unwrap();
+                let page_node = b.page_node(elem.id);
+                if elem.index + 1 >= page_node.len() {
+                    if self.stack.len() == 1 {
+                        return false;
+                    }
+                    self.stack.pop();
+                    continue;
+                }
+                elem.index += 1;
+            }
+            self.seek_first();
+            return true;
+        }
     }
 }
 
